@@ -16,6 +16,8 @@ def run(ctx):
                       {"build_output": out[-4000:]}, failing_input=False)
         return ctx.finish()
     vlib.seq_differential(ctx, GroupSpec(), exe, proofs_ok, tag="group")
+    if ctx.tier == "thorough":
+        vlib.patience_part(ctx, GroupSpec(), exe, proofs_ok, tag="group")
     vlib.merge_parts(ctx, "cases = controller scripts (Do/Periodic/Trigger/PeriodicOrTrigger registrations with gated f, trigger bursts "
                      "before/during/right after a run, Stop/StopAndWait and parent cancellation racing registrations from several goroutines) "
                      "run against the real xsync.Group; each recorded history must be accepted by the LTS model Conc/Group.v (some schedule "
